@@ -288,6 +288,121 @@ def gen_aes(rng, ops):
     ops.append('%s %s %s' % (rng.choice(['aes.enc', 'aes.dec', 'aes.rt']), hx(key), hx(blk)))
 
 
+
+# ------------------------------------------------------------------------------------------ structured / adversarial families
+# Random data almost never drives an accumulator into its corner (e.g. a second end-around carry needs the running sum to sit
+# exactly at 0xffff): these deterministic families do. They run in BOTH tiers, before the random cases.
+ALPHA = [0x00, 0x01, 0x7f, 0x80, 0xfe, 0xff]
+WORDS = [b'\x00\x00', b'\x00\x01', b'\x7f\xff', b'\x80\x00', b'\xff\xfe', b'\xff\xff']
+
+
+def _alpha_strings(maxlen):
+    import itertools
+    for ln in range(0, maxlen + 1):
+        for t in itertools.product(ALPHA, repeat=ln):
+            yield bytes(t)
+
+
+def _batched(ops, n=64):
+    for i in range(0, len(ops), n):
+        yield ops[i:i + n]
+
+
+def crc32_op(x):
+    return 'crc32 %s 4294967295 ref=%d' % (hx(x), zlib.crc32(x) & 0xffffffff)
+
+
+def md5_op(x, cuts=()):
+    pieces, prev = [], 0
+    for c in list(cuts) + [len(x)]:
+        pieces.append(x[prev:c]); prev = c
+    return 'md5 %s ref=%s' % (' '.join(hx(p) for p in pieces), hashlib.md5(x).hexdigest())
+
+
+def gen_structured(tier):
+    import itertools
+    ops = []
+    # (a) small-alphabet exhaustive enumeration
+    for x in _alpha_strings(6):
+        ops.append('sum16 %s' % hx(x))
+        if len(x) <= 5:
+            ops.append('sum8 %s' % hx(x))
+        if len(x) <= 4:
+            ops.append('crc16 %s 65535' % hx(x))
+            ops.append(crc32_op(x))
+        if len(x) <= 3:
+            ops.append('crc16 %s 0' % hx(x))
+            ops.append('crc32 %s 0' % hx(x))
+            ops.append(md5_op(x))
+            ops.append('url.rt %s 0' % hx(x)); ops.append('url.rt %s 1' % hx(x))
+            ops.append('hex.rt %s 0 -' % hx(x)); ops.append('hex.rt %s 1 3a20' % hx(x))
+            if x:
+                ops.append('b64.rt %s' % hx(x))
+                ops.append('b64.enc %s ref=%s' % (hx(x), hx(_b64.b64encode(x))))
+                ops.append('si.parse %s' % hx(x))
+    # 16-bit words over the boundary values, up to 5 words, with and without an odd tail byte
+    for n in range(0, 6):
+        for t in itertools.product(WORDS, repeat=n):
+            w = b''.join(t)
+            ops.append('sum16 %s' % hx(w))
+            if n <= 4:
+                for tail in (b'\x00', b'\x01', b'\xff'):
+                    ops.append('sum16 %s' % hx(w + tail))
+    # (b) saturating inputs: long runs of ff / fe / 00 / 80 followed by small tails, odd and even lengths
+    tails = [b'', b'\x00', b'\x01', b'\xff', b'\x00\x01', b'\x00\x02', b'\xff\xff\x00\x01', b'\x01\x00\x01']
+    for fill in (0xff, 0xfe, 0x00, 0x80):
+        for ln in (2, 3, 4, 6, 8, 254, 255, 256, 257, 258, 510, 511, 512, 513, 514, 1023, 1024, 1025):
+            for tail in tails:
+                x = bytes([fill]) * ln + tail
+                ops.append('sum16 %s' % hx(x)); ops.append('sum8 %s' % hx(x))
+                if fill in (0xff, 0x00) and tail in (b'', b'\x01'):
+                    ops.append('crc16 %s 65535' % hx(x)); ops.append(crc32_op(x))
+    for ln in (55, 56, 57, 63, 64, 65, 119, 120, 121, 127, 128, 129):
+        for fill in (0xff, 0x00, 0x80):
+            x = bytes([fill]) * ln
+            ops.append(md5_op(x)); ops.append(md5_op(x, (ln // 2,))); ops.append(md5_op(x, (1, ln - 1)))
+    for ln in (4094, 4095, 4096, 4097, 65534, 65535, 65536):
+        for tail in (b'', b'\x01', b'\x00\x01'):
+            x = b'\xff' * ln + tail
+            ops.append('sum16 %s' % hx(x)); ops.append('sum8 %s' % hx(x))
+    for ln in (65535, 65536):
+        x = b'\xff' * ln + b'\x01'
+        ops.append('crc16 %s 65535' % hx(x)); ops.append(crc32_op(x)); ops.append(md5_op(x, (ln // 3, ln - 7)))
+    # (c) table-driven codecs: every single byte value, and every byte value at each position of a quad / escape / digit pair
+    for b in range(256):
+        x = bytes([b])
+        ops += ['crc16 %s 65535' % hx(x), crc32_op(x), 'crc16 %s 0' % hx(x), 'crc32 %s 0' % hx(x), 'sum8 %s' % hx(x), 'sum16 %s' % hx(x),
+                'crc16 00%02x 65535' % b, crc32_op(bytes([0xff, b])), md5_op(x),
+                'b64.rt %s' % hx(x), 'b64.enc %s ref=%s' % (hx(x + b'\xff\x00'), hx(_b64.b64encode(x + b'\xff\x00'))),
+                'url.rt %s 0' % hx(x), 'url.enc %s 1' % hx(x), 'url.dec 25%02x41' % b, 'url.dec 2541%02x' % b,
+                'hex.rt %s %d -' % (hx(x), b & 1), 'hex.decbuf %02x30 1' % b, 'hex.decbuf 30%02x 1' % b,
+                'hex.decvec %02x46 -' % b, 'si.parse %s' % hx(x), 'si.parse ff%02x' % b]
+        for pos in range(4):
+            s = bytearray(b'QUJD'); s[pos] = b
+            dl = 3 - (1 if s[-1:] == b'=' else 0) - (1 if s[-2:-1] == b'=' else 0)
+            ops.append('b64.dec %s %d' % (hx(s), dl))
+        ops.append('b64.decvec 5155%02x44' % b)
+        k = bytes([b ^ 0x5a]) * 16
+        ops.append('aes.enc %s %s' % (hx(k), hx(x * 16)))
+        ops.append('aes.dec %s %s' % (hx(k), hx(x * 16)))
+    # serializer / deserializer: boundary values of every width, both byte orders
+    for e in 'bl':
+        for w in (1, 2, 4, 8):
+            top = (1 << (8 * w)) - 1
+            for v in (0, 1, top >> 1, (top >> 1) + 1, top - 1, top, 0x0102030405060708 & top):
+                ops.append('ser.rt %s i%d:%d' % (e, w, v))
+                ops.append('ser.rt %s i%d:%d e:%s i%d:%d p:%s' % (e, w, v, 'l' if e == 'b' else 'b', w, v, hx(v.to_bytes(w, 'big'))))
+    for x in _alpha_strings(2):
+        for e in 'bl':
+            ops += ['des.new %s %s' % (hx(x + b'\x01\x02'), e), 'des.int 2', 'des.int 2', 'des.int 1']
+    # (d) scalable integer: every value within ±2 of each encoding-length boundary, exact / short / zero capacity
+    for v in si_values(None):
+        need = 1
+        while need < 10 and v > SI_TABLE_MAX[need - 1]: need += 1
+        ops += ['si.rt %d' % v, 'si.dump %d %d' % (v, need), 'si.dump %d %d' % (v, need - 1)]
+    for c in _batched(ops):
+        yield c
+
 def gen(rng, tier):
     n = 500 if tier == 'quick' else 6000
     # malformed stream: both sides answer bad-op
@@ -305,6 +420,8 @@ def gen(rng, tier):
            'aes.enc 000102030405060708090a0b0c0d0e0f 00112233445566778899aabbccddeeff',
            'aes.dec 000102030405060708090a0b0c0d0e0f 69c4e0d86a7b0430d8cdb78070b4c55a',
            'crc32 313233343536373839 4294967295', 'crc16 313233343536373839 65535']
+    for c in gen_structured(tier):
+        yield c
     vals = si_values(rng)
     if tier == 'thorough':
         # exhaustive small scope: every byte value at every position of two valid quads, exact capacity
